@@ -298,8 +298,46 @@ func genC12Inert(t *rapid.T) c12Case {
 			c.Rules = append(c.Rules, renderNet(t, m))
 		}
 	}
+	if len(models) > 0 && chance(t, "family", 2) {
+		// a family of near-identical rules and badfilter twins: the same rule
+		// with one modifier group dropped or added, some with $badfilter
+		base := models[rapid.IntRange(0, len(models)-1).Draw(t, "family-of")]
+		for i := rapid.IntRange(1, 4).Draw(t, "nfamily"); i > 0; i-- {
+			v := base
+			switch rapid.IntRange(0, 5).Draw(t, "variant") {
+			case 0:
+				v.CPerm, v.CRestr = nil, nil
+			case 1:
+				v.CPerm = append(append([]Cli{}, base.CPerm...), Cli{"ip", "1.2.3.4"})
+			case 2:
+				v.GPerm, v.GRestr = nil, nil
+			case 3:
+				v.Deny = nil
+			case 4:
+				v.QPerm, v.QRestr = nil, nil
+			case 5:
+				v.DPerm, v.DRestr = nil, nil
+			}
+			if wideMask(v.Pat) && !v.hasRestriction() {
+				continue
+			}
+			if chance(t, "family-badfilter", 2) {
+				v.Extra = append(append([]string{}, v.Extra...), "badfilter")
+			}
+			models = append(models, v)
+			c.Rules = append(c.Rules, renderNet(t, v))
+		}
+		n = len(c.Rules)
+	}
 	k := rapid.IntRange(0, 10).Draw(t, "nnoise")
 	for i := 0; i < k; i++ {
+		if chance(t, "long-noise", 6) {
+			// a comment longer than the 4 KiB read buffer whose tail looks like a rule
+			fill := strings.Repeat("x", rapid.IntRange(4070, 4110).Draw(t, "fill"))
+			c.Noise = append(c.Noise, pick(t, "long-prefix", []string{"! ", "# ", "!", "#"})+fill+pick(t, "long-tail", []string{"||example.org^$important", "\t@@||example.org^$important", " 0.0.0.0 example.org", "##.banner"}))
+			c.Pos = append(c.Pos, rapid.IntRange(0, n).Draw(t, "noise-pos"))
+			continue
+		}
 		c.Noise = append(c.Noise, pick(t, "noise", c12NoisePool))
 		c.Pos = append(c.Pos, rapid.IntRange(0, n).Draw(t, "noise-pos"))
 	}
